@@ -50,6 +50,8 @@ func buildValue(s jShape, rng *rand.Rand, depth int) interface{} {
 			return "snow☃man \"quoted\" \\ back\u0000nul \U0001F600 <tag>&"
 		case "longstr":
 			return strings.Repeat("0123456789abcdef", 2500) // 40 KB: beyond the default read limit
+		case "hugestr":
+			return strings.Repeat("0123456789abcdef", 75000) // 1.2 MB
 		}
 	case "arr":
 		out := make([]interface{}, 0, len(s.Items))
@@ -113,7 +115,7 @@ func runJSONRow(rep *Report, row jRow, seed int64, held *[]jHeld, hmu *sync.Mute
 	}
 	defer c.CloseNow()
 	defer raw.Close()
-	c.SetReadLimit(1 << 20)
+	c.SetReadLimit(4 << 20)
 	// cooperative peer: keeps a copy of everything the library writes and echoes Close frames at once
 	var wmu sync.Mutex
 	var wireBytes []byte
@@ -159,6 +161,10 @@ func runJSONRow(rep *Report, row jRow, seed int64, held *[]jHeld, hmu *sync.Mute
 			return
 		}
 		fs, rest, derr := ws.DecodeAll(snapshot())
+		for try := 0; try < 400 && derr == nil && (len(rest) != 0 || len(fs) == 0); try++ {
+			time.Sleep(5 * time.Millisecond) // the peer goroutine has not drained a large message yet
+			fs, rest, derr = ws.DecodeAll(snapshot())
+		}
 		nData, ok := 0, derr == nil && len(rest) == 0
 		var payload []byte
 		for _, f := range fs {
